@@ -334,6 +334,12 @@ def run(chk, ctx):
                         rel, c, f, res = evaluate(repo, cname, t, st2)
                         ok = res == {("value", "True")}
                         definite = ("value", "True") not in res and ("value", "?") not in res
+                        if not ok and not definite and ("value", "?") not in res:
+                            # the answer depends on something else than this count: definite if the constructor state with
+                            # this count also admits the outcome False (the counts of the two storages are independent)
+                            for val, ost in getattr(evaluate, "last_states", []):
+                                if val in ("False", "None") and not (ost.bottom or ost.dead()):
+                                    definite = True
                         chk.decide("C11.COVER", cons + f"@count{cell}", True if ok else (False if definite else None),
                                    f"self.{links[t]} = count of {t} in the label tuple; with count {cell} the query gives {sorted(res)}",
                                    rel=rel, node=f)
